@@ -1920,6 +1920,8 @@ func main() {
 		streamTyped(r, n, pfx)
 	case "float":
 		streamFloat(r, n, pfx)
+	case "typeddec":
+		streamTypedDec(r, n, pfx)
 	case "std":
 		streamStd(r, n, pfx)
 	case "streamprog":
